@@ -35,6 +35,10 @@ pub struct Plan {
     pub nodes: Vec<TreeNode>,
     /// delivery order: uids (repeats = duplicate deliveries)
     pub order: Vec<u64>,
+    /// blocks deeper than this below the tip are kept without their transactions (Pruned) and have to
+    /// be re-read from disk when a reorganisation unwinds them; 0 = the default (8)
+    #[serde(default)]
+    pub prune_after: u64,
 }
 
 fn factorial(n: u64) -> u64 {
@@ -86,6 +90,7 @@ fn gen_exhaustive(seed: u64, n: usize, k: u64) -> Plan {
         mode: format!("exhaustive-{}", n),
         nodes,
         order,
+        prune_after: 0,
     }
 }
 
@@ -96,7 +101,11 @@ fn gen_random(seed: u64, tier: Tier) -> Plan {
     let mut nodes: Vec<TreeNode> = vec![];
     let mut depth = vec![1u64];
     let mut invalid_uids = vec![];
-    let style = rng.below(4);
+    let style = rng.below(5);
+    // style 4: a prefix, branch A, then a longer branch B off the same fork point, delivered branch after
+    // branch: one reorganisation as deep as A (with a small prune depth its blocks are already Pruned)
+    let prefix_len = 1 + rng.below(2);
+    let a_len = ((n as u64).saturating_sub(prefix_len + 1)) / 2;
     for i in 1..=n {
         // parent choice: chain-like, bushy, or two competing forks grown alternately
         let p = match style {
@@ -106,6 +115,16 @@ fn gen_random(seed: u64, tier: Tier) -> Plan {
                     (i as u64) - 1
                 } else {
                     rng.below(i as u64)
+                }
+            }
+            4 => {
+                let i = i as u64;
+                if i <= prefix_len + a_len {
+                    i - 1 // prefix, then branch A, as a chain
+                } else if i == prefix_len + a_len + 1 {
+                    prefix_len // branch B starts at the fork point
+                } else {
+                    i - 1
                 }
             }
             2 => {
@@ -130,7 +149,7 @@ fn gen_random(seed: u64, tier: Tier) -> Plan {
         let p = if invalid_uids.contains(&p) { 0 } else { p };
         let d = depth[p as usize] + 1;
         depth.push(d);
-        let invalid = if i > 2 && rng.chance(1, 12) {
+        let invalid = if i > 2 && style != 4 && rng.chance(1, 12) {
             invalid_uids.push(i as u64);
             "burnfee".to_string()
         } else {
@@ -156,7 +175,7 @@ fn gen_random(seed: u64, tier: Tier) -> Plan {
             .filter(|(_, u)| delivered.contains(&nodes[(**u - 1) as usize].parent))
             .map(|(i, _)| i)
             .collect();
-        let pick = if style == 2 || rng.chance(1, 2) {
+        let pick = if style == 2 || style == 4 || rng.chance(1, 2) {
             ready[0]
         } else {
             *rng.pick(&ready)
@@ -173,7 +192,7 @@ fn gen_random(seed: u64, tier: Tier) -> Plan {
         }
     }
     // orphan-first deliveries trip a known defect; generate them rarely
-    if rng.chance(1, 25) && order.len() >= 3 {
+    if style != 4 && rng.chance(1, 25) && order.len() >= 3 {
         let i = rng.usize_below(order.len() - 1);
         order.swap(i, i + 1);
     }
@@ -182,6 +201,7 @@ fn gen_random(seed: u64, tier: Tier) -> Plan {
         mode: "random".into(),
         nodes,
         order,
+        prune_after: *rng.pick(&[0u64, 0, 1, 2, 3]),
     }
 }
 
@@ -323,7 +343,7 @@ impl Scenario for C03 {
     fn meta(&self) -> Meta {
         Meta {
             level: "exploration",
-            rule: "run = one block tree built with the real Block::create (cross-fork conflicting spends arise because each fork spends from its own parent's ledger) + one delivery order (permutations incl. child-before-parent, duplicates, header-tampered invalid tips) into one real Blockchain::add_block; checked after every delivery against a replay of the reported chain in an independent reference ledger. The first exhaustive_prefix runs enumerate all parent vectors of n non-genesis blocks x all n! delivery orders. distinct_nontrivial = distinct (tree shape, delivery order, invalid set) digests of runs that performed >= 1 reorganisation (tip moved to a block whose parent was not the previous tip).",
+            rule: "run = one block tree built with the real Block::create (cross-fork conflicting spends arise because each fork spends from its own parent's ledger) + one delivery order (permutations incl. child-before-parent, duplicates, header-tampered invalid tips) into one real Blockchain::add_block (prune depth 1, 2, 3 or 8, so that reorganisations unwind blocks whose transactions have to be re-read from disk; one style in five is a single deep reorganisation: branch A delivered completely, then the longer branch B); checked after every delivery against a replay of the reported chain in an independent reference ledger. The first exhaustive_prefix runs enumerate all parent vectors of n non-genesis blocks x all n! delivery orders. distinct_nontrivial = distinct (tree shape, delivery order, invalid set) digests of runs that performed >= 1 reorganisation (tip moved to a block whose parent was not the previous tip).",
             real: &["Blockchain::add_block/validate/wind_chain/unwind_chain", "BlockRing", "RingItem", "Block::create/generate/validate/on_chain_reorganization", "Transaction", "Slip", "Mempool", "Wallet", "Storage", "secp256k1", "blake3"],
             stubs: &["SimIo (in-memory disk, no network)", "SimConfig", "vendored ahash with fixed seeds"],
             assumptions: &["genesis period >> tree height (retention edge is C13's)", "blocks reach add_block decoded from bytes as on the fetch path", "sampling, not proof, beyond the enumerated prefix"],
@@ -366,7 +386,11 @@ impl Scenario for C03 {
             }
         };
         let max_height = w.recs.iter().map(|b| b.id).max().unwrap_or(1);
-        let mut n = Node::new(&w.cfg, &w.keys[1].clone());
+        let mut ncfg = w.cfg.clone();
+        if plan.prune_after > 0 {
+            ncfg.consensus.prune_after_blocks = plan.prune_after;
+        }
+        let mut n = Node::new(&ncfg, &w.keys[1].clone());
         let mut trace = Digest::new();
         // genesis first
         let g = n.add_block_bytes(&w.recs[0].bytes.clone());
